@@ -48,6 +48,15 @@ def run(chk):
 
     r1, r2 = z3.Ints("r1 r2")
     chk.prove("lemma:c14:seed-schedule-injective", [], z3.Implies(r1 != r2, r1 != r2))
+    # N = n_added(): the bound's N is the total multiplicity added - across adds, merges and
+    # save/load (kernel clauses n_added / x-n_added, the class methods that reach them, C10's rows)
+    from . import _cm, _glue, _oracle, C10, C15
+
+    chk.kernel("countmin._add_linear", replayer=_cm.make_replayer("countmin._add_linear"))
+    chk.kernel("countmin._merge_linear", replayer=_cm.make_replayer("countmin._merge_linear"))
+    _glue.glue_part(chk, ["CountMinLinear"], {"add", "query"}, lambda: _oracle.c01_history(chk, 100))
+    C15.merge_glue(chk, ["CountMinLinear"])
+    C10.part(chk, ["CountMinLinear"])
     worst, where, n = chi2(chk)
     lim = 255 + 9 * (2 * 255) ** 0.5  # df = 255: mean 255, sd 22.6 -> 9 sigma
     bad = worst > lim
